@@ -10,7 +10,8 @@ DRIVER = "driver_lp"
 LEAN_MODULES = ["AllfedModel.Props.C04"]
 OBLIGATIONS = ["Allfed.C04." + n for n in [
     "sumPercent_eq_consumed", "headline_eq_min_consumed", "headline_ge_floor", "headline_le_optimum", "headline_within_tolerance",
-    "split_adds_up", "contribution_linear", "minOver_le", "minOver_attained"]]
+    "split_adds_up", "contribution_linear", "minOver_le", "minOver_attained",
+    "nonhuman_sum_eq_charge", "nonhuman_sum_le_ceiling", "nonhuman_nonneg", "nonhuman_sums_are_totals", "nonhuman_swap_counterexample"]]
 LEVEL_TEXT = ("Lean 4 theorems: for every feasible point of the LP the code builds, the sum of the nine per-food percent contributions of a month equals that "
               "month's consumed-kcals variable, so the headline is the minimum consumed; any point satisfying the 0.99995*z floors has headline within 0.005 % of an "
               "optimal z; each contribution is the allocation times a positive constant; the crop split adds up for all inputs. The report model is run against "
@@ -74,26 +75,38 @@ def audit_round(ctx, run, k, s, interp, pfm, csv_path):
                 ctx.violation("contribution-not-allocation-kcals:" + a,
                               "%s round %d: reported kcals-equivalent of %s in month %d is %r, the allocation converted is %r" % (
                                   run.iso, k + 1, a, bad, float(ik[bad]), float(mk[bad])), dict(case, food=a, month=bad))
-    # 1b. the feed and biofuel drawn from each resource, as reported, equal the optimiser's allocation of that resource (percent of the monthly need)
-    NONHUMAN = [("stored_food", "Stored_Food", 1.0, "addStored"), ("outdoor_crops", "Crops_Food", 1.0, "addOutdoor"), ("seaweed", "Seaweed", inp["seaweedKcals"], "addSeaweed"),
-                ("cell_sugar", "Cellulosic_Sugar", 1.0, "addCs"), ("scp", "Methane_SCP", 1.0, "addScp")]
+    # 1b. the feed and biofuel drawn from each resource, as reported, equal the optimiser's allocation of that resource
+    #     (percent of the monthly need): the MODEL's `Report.nonhumanMonth` (driver op report.nonhuman; theorems
+    #     C04.nonhuman_sum_eq_charge / nonhuman_sum_le_ceiling / nonhuman_nonneg / nonhuman_swap_counterexample)
+    NONHUMAN = ["stored_food", "outdoor_crops", "seaweed", "cell_sugar", "scp"]   # order of Report.nonhumanMonth: feed x5, then biofuel x5
     need = inp["billionKcalsNeeded"]
     if need > 0:
-        for attr, var, ratio, flag in NONHUMAN:
-            for use, Use in (("feed", "Feed"), ("biofuels", "Biofuel")):
-                rep = getattr(r, "%s_%s" % (attr, use), None)
-                if rep is None:
-                    ctx.count("nonhuman-series-not-reported:%s_%s" % (attr, use))
-                    continue
-                ip = np.asarray(rep.kcals, dtype=float)
-                alloc = np.array([(s.values.get("%s_%s_Month_%d_Variable" % (var, Use, m)) or 0.0) if inp[flag] else 0.0 for m in range(n)], dtype=float)
-                mp = alloc * ratio / need * 100.0
-                if ip.shape != mp.shape or not np.allclose(mp, ip, rtol=1e-9, atol=1e-9 * max(1.0, float(np.max(np.abs(mp))) if len(mp) else 1.0)):
-                    bad = int(np.argmax(np.abs(mp - ip))) if ip.shape == mp.shape else 0
-                    ctx.violation("contribution-not-allocation:%s_%s" % (attr, use),
-                                  "%s round %d: reported %s drawn from %s in month %d is %r percent of needs, the optimiser allocated %r" % (
-                                      run.iso, k + 1, use, attr, bad, float(ip[bad]) if ip.shape == mp.shape else None, float(mp[bad])), dict(case, food=attr, use=use, month=bad))
-                ctx.count("nonhuman-series-compared")
+        line_nh = "report.nonhuman %s %d %s" % (enc, len(vals), " ".join("%s %s" % (enc_str(a), f2b(b)) for a, b in vals))
+        nh = None
+        try:
+            rd2 = Reader(wire.run_driver([line_nh], exe_name="driver_lp")[0])
+            n2 = rd2.nat()
+            nh = [rd2.floats() for _ in range(n2)]
+            if n2 != n or any(len(row) != 10 for row in nh):
+                raise ValueError("shape %d x %s" % (n2, sorted(set(len(row) for row in nh))))
+        except Exception as e:  # malformed driver answer: the machinery is broken, not the code
+            ctx.disagree("C04:report.nonhuman malformed", case, "n=%d months x 10" % n, repr(e)[:200])
+            nh = None
+        if nh is not None:
+            for j, attr in enumerate(NONHUMAN):
+                for off, use in ((0, "feed"), (5, "biofuels")):
+                    rep = getattr(r, "%s_%s" % (attr, use), None)
+                    if rep is None:
+                        ctx.count("nonhuman-series-not-reported:%s_%s" % (attr, use))
+                        continue
+                    ip = np.asarray(rep.kcals, dtype=float)
+                    mp = np.array([nh[m][off + j] for m in range(n)], dtype=float)
+                    if ip.shape != mp.shape or not np.allclose(mp, ip, rtol=1e-9, atol=1e-9 * max(1.0, float(np.max(np.abs(mp))) if len(mp) else 1.0)):
+                        bad = int(np.argmax(np.abs(mp - ip))) if ip.shape == mp.shape else 0
+                        ctx.violation("contribution-not-allocation:%s_%s" % (attr, use),
+                                      "%s round %d: reported %s drawn from %s in month %d is %r percent of needs, the optimiser allocated %r" % (
+                                          run.iso, k + 1, use, attr, bad, float(ip[bad]) if ip.shape == mp.shape else None, float(mp[bad])), dict(case, food=attr, use=use, month=bad))
+                    ctx.count("nonhuman-series-compared")
     # 2. headline = min over months of the sum of the contributions (unrounded: from the kcals-equivalent series, exact units)
     keq_sum = sum(np.asarray(getattr(r, nm).kcals, dtype=float) for nm in keq_names.values()) \
         + np.asarray(r.immediate_outdoor_crops_kcals_equivalent.kcals, dtype=float) \
